@@ -50,6 +50,7 @@ def hCloser : Handler := fun _ ps b =>
   let n := ((param ps "n").bind natOfBytes).getD 0
   ⟨[⟨200, true, List.replicate n 0x78⟩], b, true⟩
 def hErr : Handler := fun _ _ b => ⟨[], b, false⟩
+def hSilent : Handler := fun _ _ b => ⟨[], b, true⟩
 def hBigr : Handler := fun _ ps b =>
   let n := ((param ps "n").bind natOfBytes).getD 0
   ⟨[ok200 (List.replicate n 0x78)], b, true⟩
@@ -71,8 +72,9 @@ def harnessCfg (max : Nat) : Cfg :=
     hook := some harnessHook
     routes := [(.post, str "/echo"), (.post, str "/noread"), (.post, str "/read/:k"), (.post, str "/early"),
                (.post, str "/swallow"), (.get, str "/close"), (.get, str "/err"), (.get, str "/bigr/:n"),
-               (.get, str "/p/:a/:b"), (.get, str "/errint"), (.get, str "/closeempty/:how"), (.get, str "/closer/:n")]
-    handler := fun i => [hEcho, hNoread, hReadK, hEarly, hSwallow, hClose, hErr, hBigr, hP, hErr, hCloseEmpty, hCloser].getD i hFallback
+               (.get, str "/p/:a/:b"), (.get, str "/errint"), (.get, str "/closeempty/:how"), (.get, str "/closer/:n"),
+               (.get, str "/silent"), (.get, str "/errkind/:k")]
+    handler := fun i => [hEcho, hNoread, hReadK, hEarly, hSwallow, hClose, hErr, hBigr, hP, hErr, hCloseEmpty, hCloser, hSilent, hErr].getD i hFallback
     fallback := hFallback }
 
 def showResp (r : Resp) : String := s!"R{r.status}:{if r.close then 1 else 0}:{hex r.body}"
